@@ -36,7 +36,7 @@ ASSUMPTIONS = [
 ]
 MANIFEST = {
     "category": "model_checking",
-    "text": "Explicit-state breadth-first model checking of the member/alias mutation API on the real objects: all operation histories up to the depth bound (quick 4, thorough 7, or to the fixpoint of reachable canonical states when it is reached earlier) over a universe of 2 modules, a class, functions, an attribute and 7 aliases (chain, dangling, self, 2-cycle), with a dict reference model stepped in lock-step and invariants I1-I8 checked in every state; a second search (family M, c16m.py) over histories that MOVE a fixed cast of objects (detach, re-attach elsewhere or at the top level, bottom-up building, implicit stubs merges, an alias over a module) with invariants M1-M5.",
+    "text": "Explicit-state breadth-first model checking of the member/alias mutation API on the real objects: all operation histories up to the depth bound (quick 4, thorough 7, or to the fixpoint of reachable canonical states when it is reached earlier) over a universe of 2 modules, a class, functions, an attribute and 7 aliases (chain, dangling, self, 2-cycle), with a dict reference model stepped in lock-step and invariants I1-I8 checked in every state; a second search (family M, c16m.py) over histories that MOVE a fixed cast of objects (detach, re-attach elsewhere or at the top level, bottom-up building, implicit stubs merges, an alias over a module) with invariants M1-M5. Two further exhaustive families judge the property's clauses directly: CH (chains of one to four aliases of aliases, every subset of links resolved, the end replaced through set_member by a function / class / alias elsewhere / dangling alias) and MS (a module and its stubs set under one name in both orders, same-name members of different kinds, aliases resolved or not before the merge).",
     "note": "Bounded by the universe and depth stated in the evidence; objects are always fresh; the reference model and canonical form are hand-written (their soundness argument is in DESIGN.md C16).",
     "technique": "explicit-state BFS model checking over API operation histories on the real implementation with a lock-step reference model",
 }
